@@ -72,6 +72,17 @@ func (g *genReq) body() []byte {
 
 func quarter(r *rand.Rand, lo, hi int) float64 { return float64(lo+r.Intn(hi-lo+1)) / 4 }
 
+// setSeed: seeds are often 0 or left out (the documented default), otherwise small integers
+func setSeed(r *rand.Rand, m M, key string) {
+	switch x := r.Intn(10); {
+	case x == 0:
+	case x <= 2:
+		m[key] = 0
+	default:
+		m[key] = r.Intn(1000)
+	}
+}
+
 func powerSetKeys(ids []string) []string {
 	var res []string
 	n := len(ids)
@@ -252,7 +263,7 @@ func genRequest(r *rand.Rand, o genOpts) *genReq {
 		}
 	}
 	if method == "majorityHeuristic" || method == "satisfactionHeuristic" || method == "aspectEliminationHeuristic" {
-		mp["randomSeed"] = r.Intn(1000)
+		setSeed(r, mp, "randomSeed")
 		mp["randomAlternativesOrdering"] = !o.fixedOrder && r.Intn(2) == 0
 	}
 	if method == "aspectEliminationHeuristic" || method == "satisfactionHeuristic" {
@@ -264,7 +275,9 @@ func genRequest(r *rand.Rand, o genOpts) *genReq {
 		"choseToMake":         chose,
 		"criteria":            crit,
 		"methodParameters":    mp,
-		"biasApplyRandomSeed": r.Intn(100000),
+	}
+	if r.Intn(8) != 0 {
+		g.M["biasApplyRandomSeed"] = r.Intn(100000) * r.Intn(2)
 	}
 	seq := o.biasSeq
 	if seq == nil && o.nBiases > 0 {
@@ -381,7 +394,7 @@ func genBias(r *rand.Rand, name string, g *genReq, o genOpts, lb, ub *int) M {
 	switch name {
 	case "criteriaOmission":
 		p["ordering"] = ordering
-		p["randomSeed"] = r.Intn(1000)
+		setSeed(r, p, "randomSeed")
 		maxOmit := *lb - 1
 		if r.Intn(2) == 0 {
 			// explicit max
@@ -416,7 +429,7 @@ func genBias(r *rand.Rand, name string, g *genReq, o genOpts, lb, ub *int) M {
 		}
 	case "preferenceReversal":
 		p["ordering"] = ordering
-		p["randomSeed"] = r.Intn(1000)
+		setSeed(r, p, "randomSeed")
 		p["ratio"] = float64(r.Intn(9)) / 8
 		if r.Intn(2) == 0 {
 			mn := r.Intn(*lb + 1)
@@ -424,7 +437,7 @@ func genBias(r *rand.Rand, name string, g *genReq, o genOpts, lb, ub *int) M {
 			p["max"] = mn + r.Intn(3)
 		}
 	case "criteriaConcealment":
-		p["randomSeed"] = r.Intn(1000)
+		setSeed(r, p, "randomSeed")
 		p["newCriterionScaling"] = []float64{0.5, 1, 1.5, 2, -1, -1.5}[r.Intn(6)]
 		refProps(r, p, o)
 		boundProps(r, p)
@@ -433,14 +446,14 @@ func genBias(r *rand.Rand, name string, g *genReq, o genOpts, lb, ub *int) M {
 			*lb++
 		}
 	case "criteriaMixing":
-		p["randomSeed"] = r.Intn(1000)
+		setSeed(r, p, "randomSeed")
 		if r.Intn(4) != 0 {
 			p["mixingRatio"] = float64(r.Intn(9)) / 8
 		}
 		refProps(r, p, o)
 		*ub++
 	case "fatigue":
-		p["randomSeed"] = r.Intn(1000)
+		setSeed(r, p, "randomSeed")
 		if r.Intn(2) == 0 {
 			p["function"] = "const"
 			p["params"] = M{"value": float64(r.Intn(5)) / 8}
@@ -474,7 +487,7 @@ func genBias(r *rand.Rand, name string, g *genReq, o genOpts, lb, ub *int) M {
 			boundProps(r, ap)
 			p["applier"] = M{"function": "inline", "params": ap}
 		} else {
-			ap["randomSeed"] = r.Intn(1000)
+			setSeed(r, ap, "randomSeed")
 			refProps(r, ap, o)
 			boundProps(r, ap)
 			p["applier"] = M{"function": "newCriterion", "params": ap}
@@ -497,7 +510,7 @@ func refProps(r *rand.Rand, p M, o genOpts) {
 		p["referenceCriterionType"] = t
 	}
 	p["newCriterionImportance"] = float64(r.Intn(9)) / 8
-	p["newCriterionRandomSeed"] = r.Intn(1000)
+	setSeed(r, p, "newCriterionRandomSeed")
 }
 
 func boundProps(r *rand.Rand, p M) {
